@@ -19,6 +19,55 @@ pub const C07_KINDS: [DisKind; 4] = [DisKind::OverAccept, DisKind::OverReject, D
 
 const RULE_PREFIX: &str = "// n\n@k: i1;\n";
 
+/// the same exploration through `Rule::parse` (start symbol Rule: metadata items then an expression)
+struct RuleTrie<'a> {
+    g: &'a Grammar,
+    classes: Vec<&'static str>,
+    kinds: Vec<TK>,
+    l_full: usize,
+    l_deep: usize,
+    nodes: u64,
+}
+
+impl RuleTrie<'_> {
+    fn visit(&mut self, seq: &mut Vec<usize>, e: &mut Earley, viable: bool, acc: &mut Acc) {
+        self.nodes += 1;
+        let text: String = format!("// n\n{}", seq.iter().map(|&i| self.classes[i]).collect::<Vec<_>>().join(" "));
+        record(acc, "C07", &text, "Rule::parse", compare_rule_expr(self.g, &text), &C07_KINDS);
+        if seq.len() >= self.l_deep || (!viable && seq.len() >= self.l_full) {
+            return;
+        }
+        for c in 0..self.classes.len() {
+            let ok = viable && e.push(self.kinds[c]);
+            seq.push(c);
+            self.visit(seq, e, ok, acc);
+            seq.pop();
+            if ok {
+                e.pop();
+            }
+        }
+    }
+}
+
+fn rule_trie_leg(g: &Grammar, l_full: usize, l_deep: usize) -> (Acc, u64) {
+    let mut classes: Vec<&'static str> = CLASSES.to_vec();
+    classes.push("@");
+    classes.push(";");
+    let kinds: Vec<TK> = classes.iter().map(|c| lex_all(c).unwrap()[0].kind).collect();
+    (0..classes.len())
+        .into_par_iter()
+        .map(|a| {
+            let mut acc = Acc::new();
+            let mut e = Earley::new(g, NT::Rule);
+            let va = e.push(kinds[a]);
+            let mut t = RuleTrie { g, classes: classes.clone(), kinds: kinds.clone(), l_full, l_deep, nodes: 0 };
+            let mut seq = vec![a];
+            t.visit(&mut seq, &mut e, va, &mut acc);
+            (acc, t.nodes)
+        })
+        .reduce(|| (Acc::new(), 0), |(a, n1), (b, n2)| (a.merge(b), n1 + n2))
+}
+
 struct Trie<'a> {
     g: &'a Grammar,
     kinds: Vec<TK>,
@@ -307,6 +356,11 @@ pub fn run(tier: Tier) -> i32 {
     let (acc, nodes, edges) = trie_leg(&g, l_full, l_deep);
     rep.absorb(acc);
     rep.absorb(matrix_leg(&g, tier == Tier::Thorough));
+    // rule-level trie: 28 classes (the 26 plus `@` and `;`) through Rule::parse
+    let (rf, rd) = tier.pick((2, 4), (3, 6));
+    let (racc, rnodes) = rule_trie_leg(&g, rf, rd);
+    rep.absorb(racc);
+    rep.bound("rule_trie", format!("28 classes, unpruned to {rf}, viable prefixes to {rd}: {rnodes} sequences"));
     let (depth, subset_nodes) = tier.pick((3, 6), (3, 10));
     rep.bound("tree_depth", depth);
     rep.bound("all_parenthesis_subsets_up_to_nodes", subset_nodes);
